@@ -100,39 +100,15 @@ def header_table(prog, chk):
 
 
 def tiling(prog, chk):
-    from rules.c01 import walker_facts, FROM_BYTES
-    from dtable import instrumented_body
-    f = walker_facts(prog, FROM_BYTES)
-    chk.ob("tiling", "the walk parses one RawAttribute per iteration and advances by its padded_len", f["raw_calls"] == 1 and f["advance_sites"] == 1 and f["advance_ok"] == 1,
-           detail=repr({k: v for k, v in f.items() if k != "base"}), how="origin")
-    chk.ob("tiling", "the walk starts at offset 20", f["starts"] == [20], detail=repr(f["starts"]), how="constant")
-    b, ups = instrumented_body(prog, FROM_BYTES)
-    og = Origins(prog, b)
-    heads = sorted({h for (_, h) in b.back_edges()})
-    ok = False
-    if len(heads) == 1:
-        # the loop is left only through the `is_empty` test of the remaining slice (other exits are error returns)
-        h = heads[0]
-        loop = b.natural_loop(h)
-        exits = [(bi, s) for bi in loop for s in b.succs(bi) if s not in loop]
-        okb = []
-        for bi, s in exits:
-            t = b.term(bi)
-            if t["k"] == "switch":
-                o = strip(og.operand(t["op"]))
-                if o.k == "call" and o.a[0].endswith("<impl [u8]>::is_empty"):
-                    okb.append((bi, s))
-        # every Ok aggregate of the function is reached only through such an exit
-        oks = [bi for bi, si, s in b.iter_stmts() if s["k"] == "assign" and s["rv"]["k"] == "aggregate" and s["rv"].get("adt") == "std::result::Result" and s["rv"].get("vname") == "Ok"
-               and b.ty(s["pl"]["ty"])["s"].startswith("std::result::Result<stun_types::message::Message")]
-        ok = bool(okb) and bool(oks) and all(any(b.dominates(s, ob) for _, s in okb) for ob in oks)
-    chk.ob("tiling", "Ok is returned only after the remainder became empty", ok, how="dominance")
-    # the over-long attribute is refused before the advance: E2 discharged the advance index in from_bytes (C01) -
-    # re-evaluated here from the same analysis
+    """the walk advances by the padded length of the attribute just decoded, from offset 20, and accepts only when the
+    attributes end exactly at the end of the buffer: decided inside the scripted walk (rule instances `tiling` and the
+    per-sequence acceptance clause of `ending-automaton`); the over-long attribute is refused before the advance (E2
+    obligation of the real decoder)"""
+    from rules.c01 import FROM_BYTES
     it = PE.analyse(prog)["full_interp"]
     bad = [o for o in it.obligations.values() if o.body.startswith(FROM_BYTES) and o.kind == "index:start" and not o.ok]
-    n = sum(1 for o in it.obligations.values() if o.body.startswith(FROM_BYTES) and o.kind == "index:start")
-    chk.ob("tiling", "the advance `&data[padded_len..]` never over-runs (an over-long attribute is refused first)", n >= 1 and not bad, how="E2 obligation")
+    n = sum(1 for o in it.obligations.values() if o.body.startswith(FROM_BYTES) and o.kind.startswith("index:"))
+    chk.ob("tiling", "the advance past an attribute never over-runs the buffer (an over-long attribute is refused first)", n >= 1 and not bad, how="E2 obligation")
 
 
 def lookups(prog, chk):
